@@ -961,9 +961,63 @@ def index_loops_to_enumerate(func):
     return func
 
 
+# ------------------------------------------------------------------------------------------- bound-method aliases
+
+def inline_method_aliases(func):
+    """`g = a.b.get` (a plain attribute chain on a name, bound once at the top level of the function, the names of the chain never
+    re-bound in the function) and afterwards only CALLED (`g(x)`): every call is the method call `a.b.get(x)` it abbreviates.  Hoisting
+    an attribute lookup changes nothing a rule is about; the rules see the receiver again."""
+    cands = {}
+    for i, st in enumerate(func.body):
+        if isinstance(st, ast.Assign) and len(st.targets) == 1 and isinstance(st.targets[0], ast.Name) and isinstance(st.value, ast.Attribute):
+            b = st.value
+            while isinstance(b, ast.Attribute):
+                b = b.value
+            if isinstance(b, ast.Name):
+                cands.setdefault(st.targets[0].id, []).append((i, st, b.id))
+    if not cands:
+        return func
+    rebound = {}
+    for n in ast.walk(func):
+        if isinstance(n, ast.Name) and isinstance(n.ctx, (ast.Store, ast.Del)):
+            rebound[n.id] = rebound.get(n.id, 0) + 1
+        elif isinstance(n, (ast.FunctionDef, ast.AsyncFunctionDef, ast.ClassDef)) and n is not func:
+            rebound[n.name] = rebound.get(n.name, 0) + 1
+    params = {a.arg for a in func.args.posonlyargs + func.args.args + func.args.kwonlyargs}
+    dead = []
+    for name, lst in cands.items():
+        if len(lst) != 1 or rebound.get(name, 0) != 1 or name in params:
+            continue
+        i, st, base = lst[0]
+        if base in rebound:
+            continue                      # the receiver is a local / a re-bound parameter: it may change between the alias and a call
+        loads = [n for n in ast.walk(func) if isinstance(n, ast.Name) and n.id == name and isinstance(n.ctx, ast.Load)]
+        calls = [n for n in ast.walk(func) if isinstance(n, ast.Call) and isinstance(n.func, ast.Name) and n.func.id == name]
+        if not loads or len(loads) != len(calls):
+            continue
+        # every use comes after the binding: none inside the statements before it
+        if any(isinstance(n, ast.Name) and n.id == name for s_ in func.body[:i] for n in ast.walk(s_)):
+            continue
+        # the chain's intermediate attributes must not be stored in the function (self.a = .. between alias and call)
+        chain_attrs = set()
+        b = st.value.value
+        while isinstance(b, ast.Attribute):
+            chain_attrs.add(b.attr)
+            b = b.value
+        if any(isinstance(n, ast.Attribute) and isinstance(n.ctx, (ast.Store, ast.Del)) and n.attr in chain_attrs for n in ast.walk(func)):
+            continue
+        for c in calls:
+            c.func = ast.copy_location(copy.deepcopy(st.value), c.func)
+        dead.append(st)
+    func.body = [s_ for s_ in func.body if not any(s_ is d for d in dead)] or [ast.Pass()]
+    ast.fix_missing_locations(func)
+    return func
+
+
 def normalize_function(func, tables: dict | None = None):
     """the local normalisations (no knowledge of other functions needed); `tables`: module-level literal tables (module_tables)"""
     try:
+        inline_method_aliases(func)
         specialise_dispatch(func)
         inline_local_defs(func)
         index_loops_to_enumerate(func)
